@@ -32,7 +32,7 @@ theorem T_C02_mod (v : Variant) (attr : Toks) (m : ModItemIn) (out : Out)
   split at h
   · simp at h
   · rename_i hu
-    obtain ⟨items, a, fns, tg, depMode, implBlock, hsplit, _, _, _, _, rfl⟩ := expandMod_ok h
+    obtain ⟨items, a, fns0, fns, tg, depMode, implBlock, hsplit, _, _, hfns, _, _, rfl⟩ := expandMod_ok h
     have hb := splitBody_print false m.oracle m.body hst m.body.length m.body items ⟨[], by simp⟩ hsplit
     constructor
     · simp only [Out.render, Out.inside, Out.after, hb]
@@ -41,7 +41,7 @@ theorem T_C02_mod (v : Variant) (attr : Toks) (m : ModItemIn) (out : Out)
 theorem T_C02_impl (v : Variant) (attr : Toks) (m : ImplItemIn) (out : Out)
     (hst : OracleOk m.oracle m.body) (h : expand v attr (.impl m) = .ok out) :
     out.render = expectedInherent m ++ printGen out.after := by
-  obtain ⟨items, a, fns, tg, depMode, implBlock, hsplit, _, _, _, _, rfl⟩ := expandImpl_ok h
+  obtain ⟨items, a, fns0, fns, tg, depMode, implBlock, hsplit, _, _, hfns, _, _, rfl⟩ := expandImpl_ok h
   have hb := splitBody_print true m.oracle m.body hst m.body.length m.body items ⟨[], by simp⟩ hsplit
   simp only [Out.render, Out.after, expectedInherent, hb]
 
@@ -57,7 +57,7 @@ theorem T_C02 (v : Variant) (attr : Toks) (item : Item) (input : Toks) (out : Ou
     have hok : OracleOk m.oracle m.body := by
       simp only [synStable, Bool.and_eq_true] at hst
       exact (oracleStable_iff _ _).mp hst.2
-    obtain ⟨items, a, fns, tg, depMode, implBlock, hsplit, _, _, _, _, rfl⟩ := expandImpl_ok h
+    obtain ⟨items, a, fns0, fns, tg, depMode, implBlock, hsplit, _, _, hfns, _, _, rfl⟩ := expandImpl_ok h
     have hb := splitBody_print true m.oracle m.body hok m.body.length m.body items ⟨[], by simp⟩ hsplit
     simp [P_C02, Out.view, expectedInherent, hb]
 
